@@ -211,8 +211,11 @@ type world struct {
 	prevMaxDL int
 	// node of the block whose log was announced twice (classification of a finding)
 	dupLogBlock   int
-	missLogBlocks []int // nodes whose logs were never announced
-	silentDrop    bool  // an InsertChain returned nil without importing its batch
+	missLogBlocks []int        // nodes whose logs were never announced
+	silentDrop    bool         // an InsertChain returned nil without importing its batch
+	unexecuted    map[int]bool // blocks stored by insertSideChain without execution (no receipts)
+	badBlock      int          // node of the canonical block whose receipts are missing
+	gapAt         uint64       // number at which canon() found no canonical hash
 	// crashed: this world was rebooted from a crash image. SetHead and reorg move the
 	// head markers first and delete index entries afterwards by design, so entries
 	// above the head are legal leftovers there (C39 does not state otherwise).
@@ -269,7 +272,7 @@ func newWorld(knobs Knobs, tree *refTree, res *simcore.Result, bubble bool) (*wo
 	}
 	w := &world{knobs: knobs, tree: tree, root: root, clock: &simdisk.Clock{}, res: res, bubble: bubble,
 		live: map[logKey]bool{}, universe: tree.universe(), trace: simcore.NewHash(), stateFP: simcore.NewHash(),
-		headNode: -1, finalNode: -2, dupLogBlock: -2}
+		headNode: -1, finalNode: -2, dupLogBlock: -2, unexecuted: map[int]bool{}, badBlock: -2}
 	w.kv = simdisk.NewSimKV(w.clock)
 	w.rec = simos.NewRecorder(root)
 	w.rec.NextSeq = w.clock.Next
